@@ -651,6 +651,10 @@ def run(run: Run):
     from . import c18
     run.rule('C06.R10', 'titles, data and sizes handed to the generated class are index-aligned per worksheet (shared with C18.R2)')
     borrow(run, 'C06.R10', c18.r2, src)
+    from .common import check_per_instance_state
+    run.rule('C06.R11', 'titles / sizes / overrides of the generated class are per instance')
+    run.guard('C06.R11', check_per_instance_state, run, 'C06.R11', get_runtime(get_source()))
+    run.floor('C06.R11', 6)
     run.floor('C06.R10', 5)
     run.floor('C06.R1', 15)
     run.floor('C06.R2', 60)
